@@ -1,7 +1,7 @@
 #!/usr/bin/env python3
 """Spike: LLVM-14 textual IR (typed pointers) -> flat C for CBMC.
 All pointers become char*; all memory access is by byte offset + cast."""
-import re, sys, collections
+import os, re, sys, collections
 
 TOK = re.compile(r'''
    (?P<str>c"(?:[^"\\]|\\.)*")
@@ -1028,7 +1028,7 @@ def split_access(ptr, rt_):
     but covers several whole integer fields (e.g. a pair returned in registers and spilled with one 64-bit store): returns [(delta, leaf type, shift)]
     so that the access is emitted field by field.  CBMC's simplifier folds field-typed accesses of constants, but not a wide byte_extract over a struct
     that also spans (uninitialised) padding - which made std::map keys built by libtins symbolic.  Padding bytes covered by the access read as 0 / are not written."""
-    if ptr not in PROV or not isinstance(rt_, IntT) or rt_.bits not in (16, 32, 64): return None
+    if os.environ.get('VP_NO_SPLIT') or ptr not in PROV or not isinstance(rt_, IntT) or rt_.bits not in (16, 32, 64): return None
     t0, off = PROV[ptr]
     n = rt_.bits // 8
     try: lv = leaves(t0, 0)
